@@ -24,9 +24,15 @@ for name in sorted(os.listdir(bd)):
     meta = json.load(open(mp)) if os.path.exists(mp) else {}
     wt = f"/tmp/verif-benign-{os.getpid()}-{name}"
     subprocess.run(["git", "-C", REPO, "worktree", "remove", "--force", wt], capture_output=True)
-    subprocess.check_call(["git", "-C", REPO, "worktree", "add", "-q", "--detach", wt, meta.get("base", "HEAD")])
+    # the change is applied to the current HEAD (the tree with all repairs);
+    # only if it no longer applies there, to the commit it was written against
+    subprocess.check_call(["git", "-C", REPO, "worktree", "add", "-q", "--detach", wt, "HEAD"])
     try:
         a = subprocess.run(["git", "-C", wt, "apply", os.path.join(d, "patch.diff")], capture_output=True, text=True)
+        if a.returncode != 0 and meta.get("base"):
+            subprocess.check_call(["git", "-C", wt, "checkout", "-q", "--detach", meta["base"]])
+            a = subprocess.run(["git", "-C", wt, "apply", os.path.join(d, "patch.diff")], capture_output=True, text=True)
+            print(f"{name}: applied to its base {meta['base']} (does not apply to HEAD)")
         if a.returncode != 0:
             print(f"{name}: patch does not apply: {a.stderr}")
             bad += 1
